@@ -65,7 +65,7 @@ class C14(Check):
                  'Track.toENUCoords', 'Track.toECEFCoords']
     stubs = ['obs_coords.math rebound: sin / cos / atan2 of symbolic arguments are uninterpreted functions memoised per argument term (same term => same variable), with sin^2 + cos^2 = 1 '
              'instantiated on the arguments the code uses; sqrt of a symbolic term is a root variable; sqrt / sin of constants are the real math functions']
-    assumptions = ['points and bases are symbolic: ECEF components in [-7e6, 7e6], ENU components in [-1e5, 1e5], longitude in [-180, 180], latitude in [-89.9, 89.9], height in [-1000, 10000]',
+    assumptions = ['points and bases are symbolic: ECEF components in [-7e6, 7e6] (bases: at least one component >= 3.6e6 in magnitude, i.e. not near the Earth\'s centre), ENU components in [-1e5, 1e5], longitude in [-180, 180], latitude in [-89.9, 89.9], height in [-1000, 10000]',
                    'a ZeroDivisionError raised by cos(latitude) == 0 inside toGeoCoords is the pole, excluded by the property (|lat| <= 89.9)',
                    'closed form: X = (N+h) cos(phi) cos(lambda), Y = (N+h) cos(phi) sin(lambda), Z = ((1-e^2) N + h) sin(phi), N = a / sqrt(1 - e^2 sin^2 phi), a = 6378137, f = 1/298.257223563, '
                    'e^2 = 2f - f^2 (the module constant is compared with it to 1e-15 as a plain number)']
@@ -103,7 +103,10 @@ class C14(Check):
         sym = inp is None
         g = (lambda nm, lo, hi: eng.real(nm, lo, hi)) if sym else (lambda nm, lo, hi: float(inp[nm]))
         if kind == 'ecef':
-            return oc.ECEFCoords(g('bX', -7e6, 7e6), g('bY', -7e6, 7e6), g('bZ', -7e6, 7e6))
+            b = oc.ECEFCoords(g('bX', -7e6, 7e6), g('bY', -7e6, 7e6), g('bZ', -7e6, 7e6))
+            if sym:
+                self._off_centre(eng, b)
+            return b
         return oc.GeoCoords(g('blon', -180, 180), g('blat', -89.9, 89.9), g('bh', -1000, 10000))
 
     def _long_points(self, eng, inp, n):
@@ -124,6 +127,17 @@ class C14(Check):
             geo.append(oc.GeoCoords(lon, lat, h))
             ecef.append(oc.ECEFCoords(x, y, z))
         return geo, ecef
+
+    @staticmethod
+    def _off_centre(eng, b):
+        """a base is a point near the Earth's surface, not its centre: one Earth-centred coordinate is at least 3.6e6 m in magnitude
+        (every point of the ellipsoid has one >= 6.3e6 / sqrt(3)); keeps degenerate models (0, 0, 0) out of the concrete judgement"""
+        cs = []
+        for v in (b.X, b.Y, b.Z):
+            cs += [zreal(v) >= 3.6e6, zreal(v) <= -3.6e6]
+        eng.assume(z3.Or(cs))
+        # ... and not within ~20 km of the polar axis (the property excludes the poles: |lat| <= 89.9)
+        eng.assume(z3.Or(zreal(b.X) >= 2e4, zreal(b.X) <= -2e4, zreal(b.Y) >= 2e4, zreal(b.Y) <= -2e4))
 
     def path(self, ctx, job):
         eng = ctx.eng
@@ -183,6 +197,7 @@ class C14(Check):
                 # ENU -> ENU re-basing of a whole track: every observation must be the point conversion (old recorded base -> new base)
                 from tracklib.core import Track, Obs, ObsTime
                 base2 = oc.ECEFCoords(eng.real('cX', -7e6, 7e6), eng.real('cY', -7e6, 7e6), eng.real('cZ', -7e6, 7e6))
+                self._off_centre(eng, base2)
                 p0 = (eng.real('x0', -7e6, 7e6), eng.real('y0', -7e6, 7e6), eng.real('z0', -7e6, 7e6))
                 tr = Track([Obs(oc.ECEFCoords(*p0), ObsTime.readUnixTime(0.0))])
                 tr.toENUCoords(base)
@@ -277,6 +292,7 @@ class C14(Check):
                 # the end must be the second one, and the positions the point conversion of the intermediate ones with it
                 from tracklib.core import Track, Obs, ObsTime
                 base2 = oc.ECEFCoords(eng.real('cX', -7e6, 7e6), eng.real('cY', -7e6, 7e6), eng.real('cZ', -7e6, 7e6))
+                self._off_centre(eng, base2)
                 pts = [(eng.real('x%d' % i, -7e6, 7e6), eng.real('y%d' % i, -7e6, 7e6), eng.real('z%d' % i, -7e6, 7e6)) for i in range(1)]
                 tr = Track([Obs(oc.ECEFCoords(*p), ObsTime.readUnixTime(float(i))) for i, p in enumerate(pts)])
                 tr.toENUCoords(base)
